@@ -355,9 +355,26 @@ def emit_lines(chk, quick, junk=True):
                         ln = emit_one(v, key, how, d, en)
                         if ln is not None:
                             lines.append(ln)
+        # the four TLP marking definitions the specifications fix (identifier, creation time, level), and near misses of their level
+        for colour, uid in TLP_FIXED.items():
+            base = {"type": "marking-definition", "id": "marking-definition--" + uid, "created": "2017-01-20T00:00:00.000Z", "definition_type": "tlp", "definition": {"tlp": colour}}
+            if v == "2.1":
+                base.update(spec_version="2.1", name="TLP:" + colour.upper())
+            lines.append(emit_one(v, "objects:marking-definition", "tlp_fixed_instance", base, "parse"))
+            for how, val in (("upper", colour.upper()), ("capitalised", colour.capitalize()), ("padded", colour + " "), ("other_level", "purple"), ("number", 1), ("list", [colour])):
+                d = copy.deepcopy(base)
+                d["definition"]["tlp"] = val
+                for en in ("parse", "constructor"):
+                    ln = emit_one(v, "objects:marking-definition", "tlp_level:" + how, d, en)
+                    if ln is not None:
+                        lines.append(ln)
     if junk:
         lines += junk_lines(chk, quick)
     return lines
+
+
+TLP_FIXED = {"white": "613f2e26-407d-48c7-9eca-b8e91df99dc9", "green": "34098fce-860f-48ae-8e50-ebd3cc5e41da", "amber": "f88d31f6-486f-44da-b317-01333bde0b82",
+             "red": "5e57c739-391a-4eb3-b6be-7d15ca92d5ed"}
 
 
 def rand_json(rng, depth):
@@ -538,6 +555,18 @@ def state_lines(chk):
 OPTION_SETS = [dict(pretty=p, sort_keys=s, include_optional_defaults=i, **({"indent": n} if n else {})) for p in (False, True) for s in (False, True) for i in (False, True) for n in (None, 2)]
 
 
+def native_ts(text, rng):
+    import datetime as dt
+    from stix2.utils import STIXdatetime, parse_into_datetime
+    b = parse_into_datetime(text)
+    val = dt.datetime(b.year, b.month, b.day, b.hour, b.minute, b.second, rng.choice([123456, 999999, 1, 500, 120000, 0]), tzinfo=dt.timezone.utc)
+    form = rng.choice(["datetime", "any:exact", "millisecond:exact", "millisecond:min", "second:exact", "second:min"])
+    if form == "datetime":
+        return val
+    p, c = form.split(":")
+    return STIXdatetime(val, precision=p, precision_constraint=c)
+
+
 def roundtrip_objects(chk, quick):
     """library objects of every type (strict and with custom content), bundles, containers, registered custom types"""
     import stix2
@@ -556,6 +585,18 @@ def roundtrip_objects(chk, quick):
                 objs.append((v, key, mode, o))
                 if not is_obs20(key, v):
                     members.append(o)
+                # the same content given the way a Python caller gives it: timestamps as datetime / STIXdatetime values that carry their own precision labels and finer digits
+                tprops = [p["name"] for p in g.types[key]["properties"] if p["kind"] == "timestamp" and isinstance(d.get(p["name"]), str)]
+                if tprops and not is_obs20(key, v) and rng.random() < (0.5 if quick else 1.0):
+                    kw = {k: val for k, val in copy.deepcopy(d).items() if k != "type"}
+                    for n in tprops:
+                        kw[n] = native_ts(d[n], rng)
+                    try:
+                        import stix2.registry
+                        cls = stix2.registry.class_for_type(d["type"], v)
+                        objs.append((v, key, mode + "+native_timestamps", cls(**kw)))
+                    except Exception:  # noqa  (refusals are C03's business)
+                        pass
                 if rng.random() < (0.3 if quick else 0.6) and not is_obs20(key, v):
                     d2 = copy.deepcopy(d)
                     d2["x_custom_" + rng.choice(["a", "b"])] = rng.choice(["v", 5, ["l"], {"k": "v"}, False])
@@ -663,7 +704,8 @@ def roundtrip_lines(chk, quick):
                           "dropped": [], "pretty": [], "exc": "construct:" + type(o).__name__, "msg": str(o)[:160], "text_sample": ""})
             continue
         full = out_json(o, include_optional_defaults=True)
-        sets = OPTION_SETS if not quick else rng.sample(OPTION_SETS, 4) + [dict(pretty=True, sort_keys=False, include_optional_defaults=False)]
+        sets = OPTION_SETS if not quick else rng.sample(OPTION_SETS, 4) + [dict(pretty=True, sort_keys=False, include_optional_defaults=False),
+                                                                             dict(pretty=True, sort_keys=True, include_optional_defaults=rng.random() < 0.5)]
         for opts in sets:
             line = {"kind": "roundtrip", "v": v, "key": key, "how": mode, "opts": {k: val for k, val in opts.items()}, "same_class": False, "equal": False, "same_text": False,
                     "options_equal": False, "dropped": [], "pretty": [], "exc": "none"}
@@ -677,7 +719,7 @@ def roundtrip_lines(chk, quick):
                 line["dropped"] = sorted(k for k in full if k not in val)
                 line["options_equal"] = all(k in full and json.dumps(val[k], sort_keys=True) == json.dumps(strip_like(full[k], val[k]), sort_keys=True) for k in val) and \
                     (not opts.get("include_optional_defaults") or val == full)
-                if opts.get("pretty") and not opts.get("sort_keys"):
+                if opts.get("pretty"):      # documented: pretty=True installs the specification-order item_sort_key, whatever sort_keys says
                     line["pretty"] = list(val)
                 else:
                     line["pretty"] = []
